@@ -589,7 +589,7 @@ MUTANTS = [
          rules=["a.math-unnamed"], desc="reverts fix 0387431: (t > 2).name is <class 'bool'>"),
     dict(id="dropna-drops-name", module=_V, old="			name=self._name, as_row=self._display_as_row)\n\n	def isna", new="			as_row=self._display_as_row)\n\n	def isna",
          rules=["b.structure-keeps"], desc="reverts fix abbe1df"),
-    dict(id="table-mask-drops-own-name", module=_T, count=4, nth=0, old="				dtype = self._dtype,\n				name=self._name\n			)",
+    dict(id="table-mask-drops-own-name", module=_T, count=5, nth=1, old="				dtype = self._dtype,\n				name=self._name\n			)",
          new="				dtype = self._dtype\n			)", rules=["i.table-own-name"], desc="reverts fix bf695ed for the mask branch"),
     dict(id="sort-by-drops-own-name", module=_T, old="		return Table(new_cols, name=self._name)\n\n	def peek", new="		return Table(new_cols)\n\n	def peek",
          rules=["i.table-own-name"]),
